@@ -6,6 +6,7 @@ import LettreVerif.Spec.StructuredDec
 import LettreVerif.Model.MailboxEnc
 import LettreVerif.Model.Rfc2231Enc
 import LettreVerif.Model.DateText
+import LettreVerif.Model.TypedHdr
 namespace LV.Driver.C17
 open LV LV.Driver LV.Mailbox LV.Driver.C16
 
@@ -238,6 +239,36 @@ def dparseOp : List String → String
       else if m == res then "ok rejected" else s!"MISMATCH dparse model={m}"
   | l => if l.contains "PANIC" then propfail "panic" else "BADLINE"
 
+/-- `tparse <kind> <text> <result>`: `MimeVersion::parse` / `ContentTransferEncoding::parse` against `Model/TypedHdr.lean`;
+    an accepted text must read back a value that is written as a text the parser reads as the same value -/
+def tparseOp : List String → String
+  | [kind, text, res] =>
+    if res == "PANIC" then propfail "panic" else
+    match ofHex text with
+    | none => "BADLINE"
+    | some v =>
+      if res == "notutf8" then "ok" else
+      if kind == "mimever" then
+        let m := match TypedHdr.mimeParse v with
+          | some (a, b) => s!"ok:{a}.{b}"
+          | none => "err"
+        if m != res then s!"MISMATCH tparse model={m}" else
+        match TypedHdr.mimeParse v with
+        | some (a, b) =>
+          if TypedHdr.mimeParse (TypedHdr.mimeDisplay a b) == some (a, b) && a < 256 && b < 256 then "ok accepted"
+          else propfail "accepted-version-does-not-read-back"
+        | none => "ok rejected"
+      else if kind == "cte" then
+        let m := match TypedHdr.cteParse v with
+          | some c => "ok:" ++ c.tag
+          | none => "err"
+        if m != res then s!"MISMATCH tparse model={m}" else
+        match TypedHdr.cteParse v with
+        | some c => if TypedHdr.cteDisplay c == v then "ok accepted" else propfail "accepted-encoding-is-not-its-own-spelling"
+        | none => "ok rejected"
+      else "BADLINE"
+  | l => if l.contains "PANIC" then propfail "panic" else "BADLINE"
+
 /-- the field name of each text header (`text_header!` in src/message/header/textual.rs) -/
 def textHeaderName (sel : String) : Option String :=
   match sel with
@@ -281,7 +312,14 @@ def typedOp1 (rawCt : String) : List String → String
             if StructuredDec.paramDecode (str "filename") (HeaderReader.unfold v) != some fname then
               propfail "file-name-does-not-decode-to-the-name" else "ok"
           | none => "BADLINE"
-        else if kind == "mimever" then (if v == str s!"{a}.{b}" then "ok" else mismatch "mimever" (str s!"{a}.{b}"))
+        else if kind == "mimever" then
+          (match a.toNat?, b.toNat? with
+           | some x, some y => if v == TypedHdr.mimeDisplay x y then "ok" else mismatch "mimever" (TypedHdr.mimeDisplay x y)
+           | _, _ => "BADLINE")
+        else if kind == "cte" then
+          (match TypedHdr.Cte.all.find? (fun c => c.tag == a) with
+           | some c => if v == TypedHdr.cteDisplay c then "ok" else mismatch "cte" (TypedHdr.cteDisplay c)
+           | none => "BADLINE")
         else if kind == "ctype" then
           -- `ContentType::display` is `HeaderValue::new(name, media type as given)`: the encoder model of C02
           match (if rawCt == "-" then none else ofHex rawCt) with
